@@ -33,10 +33,51 @@ pub fn digest(s: &str) -> String {
     format!("{:016x}", h.finish())
 }
 
-/// Poll a future exactly once with a no-op waker.
+thread_local! {
+    /// Polls of a scripted transport (or another scripted source) that returned `Pending`.
+    static PENDS: std::cell::Cell<u64> = const { std::cell::Cell::new(0) };
+    /// Calls of `wake`/`wake_by_ref` on the waker handed out by `poll_once`.
+    static WAKES: std::cell::Cell<u64> = const { std::cell::Cell::new(0) };
+    /// Polls that returned `Pending` although no scripted source was pending in them and nobody
+    /// woke the task: under a real executor such a task sleeps for ever.
+    static LOST: std::cell::Cell<u64> = const { std::cell::Cell::new(0) };
+}
+
+/// A scripted source that returns `Pending` stands for a transport that keeps the waker.
+pub fn note_pend() {
+    PENDS.with(|c| c.set(c.get() + 1));
+}
+
+/// Number of lost wake-ups since the last call (see `LOST`).
+pub fn take_lost_wakeups() -> u64 {
+    LOST.with(|c| c.replace(0))
+}
+
+struct CountingWaker;
+impl std::task::Wake for CountingWaker {
+    fn wake(self: std::sync::Arc<Self>) {
+        WAKES.with(|c| c.set(c.get() + 1));
+    }
+    fn wake_by_ref(self: &std::sync::Arc<Self>) {
+        WAKES.with(|c| c.set(c.get() + 1));
+    }
+}
+
+/// Poll a future exactly once. The waker only counts: the drivers re-poll unconditionally, but a
+/// `Pending` that neither comes from a scripted source nor was preceded by a wake is recorded.
 pub fn poll_once<F: Future + ?Sized>(f: Pin<&mut F>) -> Poll<F::Output> {
-    let mut cx = Context::from_waker(Waker::noop());
-    f.poll(&mut cx)
+    thread_local! {
+        static WAKER: Waker = Waker::from(std::sync::Arc::new(CountingWaker));
+    }
+    let (p0, w0) = (PENDS.with(|c| c.get()), WAKES.with(|c| c.get()));
+    let r = WAKER.with(|w| {
+        let mut cx = Context::from_waker(w);
+        f.poll(&mut cx)
+    });
+    if r.is_pending() && PENDS.with(|c| c.get()) == p0 && WAKES.with(|c| c.get()) == w0 {
+        LOST.with(|c| c.set(c.get() + 1));
+    }
+    r
 }
 
 #[derive(Debug, Clone)]
@@ -127,9 +168,13 @@ impl ReadHalf for SRead {
             match s.evs.pop_front() {
                 None => {
                     s.exhausted = true;
+                    note_pend();
                     Poll::Pending
                 }
-                Some(Ev::Pend) => Poll::Pending,
+                Some(Ev::Pend) => {
+                    note_pend();
+                    Poll::Pending
+                }
                 Some(Ev::Eof) => {
                     s.evs.push_front(Ev::Eof);
                     Poll::Ready(Ok(0))
@@ -178,6 +223,7 @@ impl WriteHalf for SWrite {
                     } else {
                         *k -= 1;
                         s.wpending += 1;
+                        note_pend();
                         Poll::Pending
                     }
                 }
